@@ -21,6 +21,21 @@ CLAIMED = {
         technique="Coq proof (lia over bit-field arithmetic + per-constructor computation on regenerated tables) "
                   "+ differential correspondence",
     ),
+    "C13": dict(
+        text="Machine-checked theorems (Coq): the low/high split is exact for EVERY offset in "
+             "[-2^31-2^11, 2^31-2^11); every stub kind (method, PIC, register save, interpreter trampoline "
+             "method/PIC calls, RIMI-full chdom forms, FIXER tagged calls, switch case hit/miss), decoded by the "
+             "independent decoder and executed on the reference machine from ANY state at ANY address A, reaches "
+             "exactly A+offset with ra just past the stub, the hit case loaded, CALL_TMP_REG = target and (FIXER) "
+             "exactly the return address registered; offsets below the minimum distance are rejected.  Stub "
+             "builders read the regenerated tables; implementation stubs are executed on the extracted machine.",
+        design="4 C13",
+        note="Trusted: Coq kernel, no axioms; gen_tables.py; extraction; Machine.v/Isa.v as hand-written reference "
+             "semantics; Builder.v mirrors the Python stub builders and is tied by correspondence; hypothesis "
+             "(A+offset) even (jalr clears bit 0).",
+        technique="Coq proof (lia on the split arithmetic + symbolic execution of the decoded stub on the "
+                  "reference machine) + differential correspondence and execution of implementation stubs",
+    ),
     "C14": dict(
         text="Machine-checked theorems (Coq) over the regenerated, ordered instruction tables: for all 77 "
              "constructors and ALL in-range operand tuples the first-match look-up returns the constructor's own "
